@@ -5,7 +5,7 @@ use serde_json::json;
 
 use crate::case::{Case, CaseError, Env, Tier};
 use crate::exec::Exec;
-use crate::model::{Model, Outcome};
+use crate::model::Outcome;
 use crate::ops::{COp, GenCfg, Policy};
 use crate::runner::Property;
 use crate::util::hash64;
@@ -24,15 +24,25 @@ fn gen_cfg(tier: Tier) -> GenCfg {
     cfg
 }
 
-fn totals(model: &Model) -> (usize, usize, usize) {
-    let names: usize = model.queues.keys().map(|name| name.len()).sum();
-    let data: usize = model
-        .queues
-        .values()
-        .map(|queue| queue.recs.iter().map(|(_, bytes)| bytes.len()).sum::<usize>())
-        .sum();
-    let records: usize = model.queues.values().map(|queue| queue.recs.len()).sum();
-    (names, data, records)
+/// (queue-name bytes, retained payload bytes, retained records) as the real log shows them through its read API.
+fn totals(log: &mrecordlog::MultiRecordLog) -> Result<(usize, usize, usize), CaseError> {
+    let result = crate::util::guarded(|| {
+        let mut names = 0usize;
+        let mut data = 0usize;
+        let mut records = 0usize;
+        let queue_names: Vec<String> = log.list_queues().map(|name| name.to_string()).collect();
+        for name in &queue_names {
+            names += name.len();
+            if let Ok(iter) = log.range(name, ..) {
+                for record in iter {
+                    data += record.payload.len();
+                    records += 1;
+                }
+            }
+        }
+        (names, data, records)
+    });
+    result.map_err(|_| CaseError::Skip("live-state-unobservable".to_string()))
 }
 
 impl Property for C16 {
@@ -42,8 +52,8 @@ impl Property for C16 {
 
     fn rule(&self) -> String {
         "generated histories of appends / truncations / deletions / restarts of any sizes; after EVERY call, with \
-         N = sum of queue-name bytes, D = retained payload bytes, R = retained records (all from the reference \
-         model): N + D <= memory_used_bytes <= N + D + 64*R, memory_used_bytes <= memory_allocated_bytes; a \
+         N = sum of queue-name bytes, D = retained payload bytes, R = retained records (all measured through the log's \
+         own read API: list_queues + range(..)): N + D <= memory_used_bytes <= N + D + 64*R, memory_used_bytes <= memory_allocated_bytes; a \
          truncate evicting e records of d bytes lowers memory_used_bytes by >= d and <= d + 64*e; when every queue \
          is empty memory_used_bytes == N. evaluations = calls checked. non-trivial = a truncation evicting >= 1 \
          record, or the all-empty baseline reached after >= 64 KiB had been retained; distinct = hash(op index, \
@@ -72,13 +82,13 @@ impl Property for C16 {
         let mut peak_data = 0usize;
         for sop in &case.ops {
             let cop = exec.resolve(sop);
-            let (_, data_before, _) = totals(&exec.model);
+            let (_, data_before, _) = totals(exec.driver.log.as_ref().unwrap())?;
             let used_before = exec.driver.log.as_ref().unwrap().resource_usage().memory_used_bytes;
             let step = exec.step_concrete(cop)?;
-            exec.check_outcome(&step)?;
+            exec.usable_or_skip(&step)?;
             env.evals(1);
             let usage = exec.driver.log.as_ref().unwrap().resource_usage();
-            let (names, data, records) = totals(&exec.model);
+            let (names, data, records) = totals(exec.driver.log.as_ref().unwrap())?;
             peak_data = peak_data.max(data);
             let used = usage.memory_used_bytes;
             let fail = |msg: String, signature: &str| Err(exec.failure(
@@ -96,8 +106,8 @@ impl Property for C16 {
                 return fail(format!("every queue is empty but memory_used_bytes = {used} != names-only baseline {names}"), "mem-baseline");
             }
             let mut nontrivial = false;
-            if let (COp::Truncate { .. }, Outcome::Truncated { evicted }) = (&step.cop, &step.expected) {
-                let freed = data_before - data;
+            if let (COp::Truncate { .. }, Outcome::Truncated { evicted }) = (&step.cop, &step.real.outcome) {
+                let freed = data_before.saturating_sub(data);
                 let drop = used_before as i64 - used as i64;
                 if drop < freed as i64 || drop > (freed + PER_RECORD_SLACK * evicted) as i64 {
                     return fail(format!(
